@@ -284,3 +284,49 @@ pub fn emit_forced(pp: &PublicParameters, seed: u64, lines: &[String]) -> Vec<St
     }
     out
 }
+
+/// `prove <deg> <d1> <d2> <d3> <label> <14 draws> <version> || <progA> || <progB>`
+pub fn prove_line(line: &str) -> String {
+    let parts: Vec<&str> = line.split("||").collect();
+    if parts.len() != 3 {
+        return "bad-request".into();
+    }
+    let h: Vec<&str> = parts[0].split_whitespace().collect();
+    if h.len() != 8 {
+        return "bad-request".into();
+    }
+    let pp = match crate::kzg::setup(h[1], &h[2..5]) {
+        Some(Ok(pp)) => pp,
+        Some(Err(e)) => return format!("err:srs:{:?}", e),
+        None => return "bad-request".into(),
+    };
+    let label = match hex_bytes(h[5]) {
+        Some(l) => l,
+        None => return "bad-request".into(),
+    };
+    let draws: Option<Vec<Vec<u8>>> = h[6].split(',').map(|d| hex_bytes(d).filter(|b| b.len() == 64)).collect();
+    let (draws, ver) = match (draws, version(h[7])) {
+        (Some(d), Some(v)) => (d, v),
+        _ => return "bad-request".into(),
+    };
+    let ca = ProgCircuit { src: parts[1].trim().to_string() };
+    let cb = ProgCircuit { src: parts[2].trim().to_string() };
+    let (prover, verifier) = match Compiler::compile_with_circuit(&pp, &label, &ca) {
+        Ok(x) => x,
+        Err(e) => return format!("err:compile:{:?}", e).split('(').next().unwrap().to_string(),
+    };
+    let vb = verifier.to_bytes();
+    let mut hsh = Hasher::new();
+    for b in &vb {
+        hsh.push_u64(*b as u64);
+    }
+    let vh = hsh.hex();
+    let mut rng = ScriptRng::scripted(0xabc, draws);
+    match prover.prove_with_version(&mut rng, &cb, ver) {
+        Ok((proof, pis)) => format!("proof={} pis={} vh={} calls={}", bytes_hex(&proof.to_bytes()), show_list(&pis), vh, rng.calls),
+        Err(Error::CircuitUnsatisfied) => format!("err:unsat vh={}", vh),
+        Err(Error::InvalidCircuitSize(_, _)) => format!("err:sizeerr vh={}", vh),
+        Err(Error::UnsupportedProvingVersion) => format!("err:UnsupportedProvingVersion vh={}", vh),
+        Err(e) => format!("err:other:{:?} vh={}", e, vh).replace(' ', "_"),
+    }
+}
